@@ -27,7 +27,7 @@ MECHANISMS = ["jaxley.utils.cell_utils:compute_coupling_cond", "jaxley.utils.cel
               "jaxley.modules.base:Module._channel_currents", "jaxley.modules.base:Module.step"]
 MECHANISMS_REQUIRED = MECHANISMS
 REQUIRED = {"quick": {"space_order": 20, "time_order": 30, "abs_accuracy": 20},
-            "thorough": {"space_order": 144, "time_order": 232, "abs_accuracy": 168}}
+            "thorough": {"space_order": 144, "time_order": 228, "abs_accuracy": 168}}
 WALL_BUDGET = {"quick": 1500, "thorough": 4 * 3600}
 
 
